@@ -363,6 +363,29 @@ pub fn run(env: &Env) -> PropRun {
         let ji = |c: &Case, t: &mut Tally| judge("isolated-extremes", c, t);
         parts.push(run_part(env, "isolated-extremes", iso.len(), true, "chains of 3 000 - 150 000 soft-wrapped rows merged into one row by a single widening and split again, per-character feeding with dump/text in between, 60 000-row and 65 535-column screens; each case in a child process so that a stack overflow or abort is seen", &|i| iso.get(i).cloned(), &ji));
     }
+    {
+        // states that only a restored cursor or a width-only resize reaches (origin mode on,
+        // cursor outside the scroll region, saved cursor anywhere), each followed by every
+        // read-only operation: dump() has a branch of its own for them
+        let go = |src: &mut Src, i: usize| {
+            let mut c = super::c11::gen_origin_outside(src, i);
+            c.tail.clear();
+            c.limit = gen::limit(src);
+            let k = c.calls.len();
+            for at in [k, k / 2] {
+                c.calls.insert(at.min(c.calls.len()), Call::Dump);
+            }
+            c.calls.push(Call::Text);
+            c.calls.push(Call::Query);
+            c.calls.push(Call::FeedStr("\x1b[?47h".into()));
+            c.calls.push(Call::Dump);
+            c.calls.push(Call::FeedStr("\x1b[?47l\x1b8".into()));
+            c.calls.push(Call::Dump);
+            c.nums = vec![src.below(3), 0];
+            c
+        };
+        parts.push(random_part(env, "origin-outside-dump", env.tier.scale(30_000, 30), &go, &j));
+    }
     parts.push(random_part(env, "many-calls", env.tier.scale(300, 20), &gen_many_calls, &j));
     parts.push(random_part(env, "volume", env.tier.scale(300, 20), &gen_volume, &j));
     PropRun {
